@@ -293,4 +293,14 @@ Section Tie.
      ("Variable", []); ("UnaryExpression", []); ("BinaryExpression", []); ("NAryExpression", []);
      ("ParameterizedUnaryExpression", [])].
   Proof. reflexivity. Qed.
+
+  (** the two constructors that only store what they are handed: a fresh expression carries its
+      variable-name set and both memo flags False (what Stateful.v starts from); a point IS its keyword
+      dictionary, unfiltered (what Eval.lookup / point_eqb are stated about) *)
+  Lemma plain_inits_tied :
+    gen_plain_inits =
+    [("Expression", (["self"; "variable_names"],
+                     [("_variable_names", "variable_names"); ("_is_fully_reduced", "False"); ("_evaluation_failed", "False")]));
+     ("Point", (["self"; "**kwargs"], [("_coordinates", "kwargs")]))].
+  Proof. reflexivity. Qed.
 End Tie.
